@@ -238,7 +238,14 @@ class MDReplayer:
                 continue
             # divergence: judge the property directly on the real state
             bad = self.dangling(u)
-            if bad:
+            errs = _multi_device._check_device_configurations(u.model)  # noqa: SLF001
+            if exp in ("axis-range", "axis-repeated", "num-shards", "stage-conflict", "stage-negative"):
+                self.finding("C19", f"C19:{c['op']}:{exp}:invalid-request-accepted", rec, row, got=got,
+                             message=f"an invalid annotation request ({exp}) was accepted instead of being rejected without effect")
+            elif errs:
+                self.finding("C19", f"C19:{c['op']}:{exp}:checker-reports", rec, row, got=got, errors=errs[:3],
+                             message=f"after {c['op']} the library's device-configuration check reports: {errs[:2]}")
+            elif bad:
                 self.finding("C19", f"C19:{c['op']}:{exp}:dangling", rec, row, got=got, dangling=bad[:4],
                              message=f"after {c['op']} an annotation targets {bad[:2]}")
             else:
